@@ -26,6 +26,8 @@ type Case struct {
 	// BigQuery > 0: a query of that many bytes is part of the session (sizes around the limit,
 	// the TLS record size and 1 MiB): the limit is about messages, whatever the transport
 	BigQuery int `json:"big_query,omitempty"`
+	// IdleAt (client "ssl-idle"): a long time passes before message i (-1 = before the start-up packet)
+	IdleAt []int `json:"idle_at,omitempty"`
 }
 
 const marker = "MARKER"
@@ -236,6 +238,13 @@ func Run(c Case) core.Result {
 			return fmt.Sprintf("%s: callback ran: %s", what, e)
 		}
 		return ""
+	}
+	switch c.Client {
+	case "ssl-idle":
+		if certs {
+			return runIdleCase(c, res)
+		}
+		c.Client = "ssl"
 	}
 	switch c.Client {
 	case "plain":
